@@ -45,12 +45,15 @@ CHECKS["C10"] = dict(
           "independent reference encoder/parser (ref/resp.go): decodeAll(chunks(refEnc(vs))) == vs then clean EOF; values stay intact "
           "after later decodes; sutEnc == refEnc per value and per stream; sutEnc(decode(b)) == b; every strict prefix of a message "
           "yields a sticky error; inline line == its array form; btoi64/itoa vs strconv (exhaustive over short strings and "
-          "[-70000,70000]). Non-trivial: the stream is split into >= 2 reads, or a line is longer than the buffer, or a bulk is >= 510 "
+          "[-70000,70000]). part longstream: 100..1500 small messages through ONE decoder and ONE encoder, dominated by 1..3 shapes "
+          "drawn from a palette of early-return shapes (null array, null bulk, empty array/bulk, arrays holding nulls, nesting 3, a "
+          "plain command) - state leaking from one message into later ones; same oracles. Non-trivial: the stream is split into >= 2 reads, or a line is longer than the buffer, or a bulk is >= 510 "
           "bytes, or nesting >= 2 (prefix/ints parts: every case); distinct by the canonical JSON of the case."),
     assumptions=["readers never return data together with EOF nor 0 bytes without error (net.Conn behaviour)",
                  "btoi64 is allowed to reject non-canonical integers that strconv accepts ('+5', '007'); it must accept canonical ones and never accept text strconv rejects"],
     parts=[
         dict(name="roundtrip", test="TestRoundTrip", kind="rapid", checks={"quick": 20000, "thorough": 400000}, shards=16, timeout={"quick": 600, "thorough": 3000}),
+        dict(name="longstream", test="TestLongStream", kind="rapid", checks={"quick": 150, "thorough": 6000}, shards=16, timeout={"quick": 600, "thorough": 3000}),
         dict(name="prefix", test="TestPrefix", kind="rapid", checks={"quick": 30000, "thorough": 600000}, shards=4, timeout={"quick": 600, "thorough": 3000}),
         dict(name="inline", test="TestInline", kind="rapid", checks={"quick": 20000, "thorough": 400000}, shards=4, timeout={"quick": 600, "thorough": 3000}),
         dict(name="ints", test="TestIntsExhaustive", kind="plain"),
@@ -345,7 +348,9 @@ CHECKS["C14"] = dict(
           "proxy's documented tables and a few others (~230 names) x 3 letter-case variants x 3 read strategies x {0,1,2} replicas per "
           "master, each sent with 1..3 arguments; part random: rapid-generated batches of 1..25 commands (names from those tables or "
           "random, random letter case, 0..6 arguments, hash-tagged keys) against 1..3 masters with 0..2 replicas under a generated "
-          "read strategy. Oracle per command from the simulated nodes' logs: a name outside the documented supported set is answered by "
+          "read strategy; in a third of the layouts with replicas, 1..2 replica re-parentings (the k-th replica becomes a replica of "
+          "another master) happen between commands, and the commands continue after the proxy refreshed its table twice. Oracle per "
+          "command from the simulated nodes' logs (against the current replica sets): a name outside the documented supported set is answered by "
           "an error and no backend logs an arrival; PING/QUIT/SELECT/INFO/TIME/HOTKEY are answered with no arrival; every arrival of a "
           "forwarded command is at the master owning ref.Slot(key) or one of its replicas; a command Redis flags as write (and EVAL) "
           "arrives only at that master under every strategy (an arrival at a replica that answers MOVED counts); a read-only command "
@@ -370,7 +375,8 @@ CHECKS["C18"] = dict(
           "a generated partition of its keys (pages may be empty, keys may repeat), optional MATCH/COUNT; the client loops from cursor 0 "
           "through a real proxy. Oracle: cursor 0 is reached within pages+nodes+1 calls; returned keys == stored keys as sets; every "
           "node's log shows exactly its chain 0,c1,... once and in order with MATCH/COUNT unchanged; a cursor past the last node yields "
-          "[\"0\", []] twice identically. Non-trivial: node index > 0 with a node cursor >= 2^32 (cursor); >= 2 nodes and a node with >= 2 "
+          "[\"0\", []] twice identically; zero nodes (a service that never had a host, or whose hosts are all removed after the "
+          "iteration): the cursors 0, 5, 2^48, 3*2^48+77, 32767*2^48 each yield the terminating reply. Non-trivial: node index > 0 with a node cursor >= 2^32 (cursor); >= 2 nodes and a node with >= 2 "
           "pages (iteration). Distinct by canonical JSON."),
     assumptions=["client cursors are read as int64, so node indices >= 32768 cannot be fed back as decimal text (far beyond any real node count); they are only checked at the gen/parse level",
                  "SCAN iterates the service's hosts sorted by address; the seed hosts are the masters"],
@@ -392,7 +398,10 @@ CHECKS["C11"] = dict(
           "slot ranges, markers) into parseClusterNodes; part backendreply: generated MOVED/ASK/CLUSTERDOWN error texts (missing fields, "
           "extra spaces, wrong case, non-addresses) and arbitrary values through the real handleResp/handleRedirection; part scanreply: "
           "arbitrary values as SCAN reply through the real rewriting hooks; part requestvalue: arbitrary decoded values and supported names "
-          "with hostile argument shapes through the real handleRequest (must answer within 3 s). layer 2 part sockets: a real proxy in "
+          "with hostile argument shapes through the real handleRequest (must answer within 3 s); part decompress: replies holding bulk "
+          "strings that look like (parts of) a compressed value (strict header prefixes, header with another algorithm byte, header + "
+          "garbage / truncated stream / huge declared length) through the reply path of the compression filter, compression option "
+          "present and enabled or disabled. layer 2 part sockets (compression option absent / disabled / enabled): a real proxy in "
           "front of two simulated nodes; 1..5 steps in which node 0 answers the next CLUSTER NODES / READONLY / SCAN / keyed command with "
           "generated bytes (optionally closing) or a client sends generated bytes; after every step a fresh connection must get +PONG and "
           "a SET on the untouched node must succeed within 10 s. part clusternodes-socket: the genuine CLUSTER NODES text of the simulated "
@@ -407,6 +416,7 @@ CHECKS["C11"] = dict(
         dict(name="decoder", test="TestDecoderBytes", kind="rapid", checks={"quick": 1500, "thorough": 60000}, shards=16, timeout={"quick": 900, "thorough": 3400}, crash_is_violation=True),
         dict(name="clusternodes", test="TestClusterNodesText", kind="rapid", checks={"quick": 10000, "thorough": 400000}, shards=4, timeout={"quick": 900, "thorough": 3400}, crash_is_violation=True),
         dict(name="backendreply", test="TestBackendReplies", kind="rapid", checks={"quick": 300, "thorough": 10000}, shards=8, timeout={"quick": 900, "thorough": 3400}, crash_is_violation=True),
+        dict(name="decompress", test="TestDecompressReplies", kind="rapid", checks={"quick": 1500, "thorough": 60000}, shards=8, timeout={"quick": 900, "thorough": 3400}, crash_is_violation=True),
         dict(name="scanreply", test="TestScanReplies", kind="rapid", checks={"quick": 5000, "thorough": 200000}, shards=2, timeout={"quick": 900, "thorough": 3400}, crash_is_violation=True),
         dict(name="requestvalue", test="TestRequestValues", kind="rapid", checks={"quick": 3000, "thorough": 100000}, shards=4, timeout={"quick": 900, "thorough": 3400}, crash_is_violation=True),
         dict(name="clusternodes-socket", test="TestHostileClusterNodes", kind="rapid", checks={"quick": 20, "thorough": 800}, shards=16, timeout={"quick": 900, "thorough": 3400}, gomaxprocs=4, crash_is_violation=True),
